@@ -303,3 +303,12 @@ Definition u_count (vs : list val) (s : val) : val := VInt (z_of s + Z.of_nat (l
 (* lambda vs, s: (s or []) + vs *)
 Definition u_append (vs : list val) (s : val) : val :=
   VList ((match s with VList l => l | _ => [] end) ++ vs).
+(* update functions with u [] s <> s: they show whether the function is called for a key that is absent *)
+(* lambda vs, s: (s or []) + [list(vs)]   -- one entry per interval since the key appeared *)
+Definition u_history (vs : list val) (s : val) : val :=
+  VList ((match s with VList l => l | _ => [] end) ++ [VList vs]).
+(* lambda vs, s: 0 if vs else (s or 0) + 1   -- intervals since the key last had data *)
+Definition u_idle (vs : list val) (s : val) : val :=
+  match vs with [] => VInt (z_of s + 1) | _ => VInt 0 end.
+(* lambda vs, s: sum(vs) + (s or 0) // 2   -- a sum that halves every interval (floor division) *)
+Definition u_decay (vs : list val) (s : val) : val := VInt (sumZ (map z_of vs) + z_of s / 2).
